@@ -23,11 +23,8 @@ class Reductions(object):
         self.lower = None
 
     def _lower(self):
-        # one Lower per path so that atoms are shared between all records
-        if self.lower is None:
-            self.lower = Lower(self.st.pc)
-        self.lower.pc = self.st.pc
-        return self.lower
+        # one Lower per path so that atoms are shared between all records and all obligations
+        return self.st.lower
 
     def _equal(self, a, b):
         s = z3.Solver()
